@@ -22,7 +22,11 @@ use crate::util;
 use crate::worker::{self, WorkerResult};
 use crate::world::{self, Verdict};
 
-pub const FAULTS: [&str; 19] = [
+pub const FAULTS: [&str; 21] = [
+    // a rule that names what the step's signed link reports (its product `out`) and nothing an
+    // inspection could find in the working directory
+    "step-rule-fail-by-name:first",
+    "step-rule-fail-by-name:last",
     "expired:written-with-an-offset",
     "failing-sublayout-next-to-valid-link:first",
     "tampered-layout",
@@ -182,6 +186,9 @@ pub fn worker_case(case: &Value, dir: &Path) -> Value {
         let mut st = world::step(name, thr, &[k.a, k.b]);
         if is("step-rule-fail", "first") || is("step-rule-fail", "last") {
             st = st.add_expected_product(ArtifactRule::Disallow("*".into()));
+        }
+        if is("step-rule-fail-by-name", "first") || is("step-rule-fail-by-name", "last") {
+            st = st.add_expected_product(ArtifactRule::Disallow("out".into()));
         }
         steps.push(st);
         // link files
@@ -354,7 +361,7 @@ fn gen_cases(tier: Tier) -> Vec<Value> {
             if *shape == "S3" && (f.ends_with(":first") || *f == "missing-link:all") && !f.starts_with("inner") {
                 // in S3 the only step is the delegated one; step-level faults on
                 // it are expressed by the inner faults
-                if *f != "step-rule-fail:first" && *f != "threshold-unmet:first" {
+                if *f != "step-rule-fail:first" && *f != "threshold-unmet:first" && *f != "step-rule-fail-by-name:first" {
                     continue;
                 }
             }
@@ -382,7 +389,7 @@ fn gen_cases(tier: Tier) -> Vec<Value> {
 /// In shape S3 the first step is the delegated one: link-level faults aimed at it are not injected
 /// (its evidence is the sub-layout; the inner faults express them), so they change nothing.
 fn effective(shape: &str, f: &str) -> bool {
-    !(shape == "S3" && f.ends_with(":first") && !f.starts_with("inner") && f != "step-rule-fail:first" && f != "threshold-unmet:first")
+    !(shape == "S3" && f.ends_with(":first") && !f.starts_with("inner") && f != "step-rule-fail:first" && f != "threshold-unmet:first" && f != "step-rule-fail-by-name:first")
 }
 
 fn fault_class(f: &str) -> String {
